@@ -47,3 +47,5 @@ pub broadcast axiom fn axiom_duration_add_val(a: Duration, b: Duration)
 pub broadcast group group_duration { axiom_duration_mul_req, axiom_duration_mul_obeys, axiom_duration_mul_val, axiom_duration_add_req, axiom_duration_add_obeys, axiom_duration_add_val }
 pub assume_specification [ Duration::ZERO ] -> (r: Duration)
     ensures dur_ns(r) == 0;
+pub assume_specification [ Duration::from_secs ] (s: u64) -> (d: Duration)
+    ensures dur_ns(d) == s as nat * 1_000_000_000;
